@@ -78,6 +78,10 @@ pub fn ext_batch(p: &mut Prog, rng: &mut Rng, stmt_name: &str, sql_tail: &str, r
     if close && !stmt_name.is_empty() {
         msgs.push(FrontMsg::C { kind: "S".into(), name: stmt_name.into() });
     }
+    if rng.chance(0.15) {
+        // drivers close the unnamed portal explicitly now and then
+        msgs.push(FrontMsg::C { kind: "P".into(), name: String::new() });
+    }
     msgs.push(FrontMsg::S);
     msgs
 }
